@@ -475,7 +475,7 @@ class SqliteMap(BaseMap):
             dist = self.distance(loc, loc_o)
             if dist < max_dist:
                 results.append((dist, key_o, loc_o))
-        results.sort()
+        results.sort(key=lambda result: result[0])  # by distance only: labels are never compared
         t_delta_dist = time.time() - t_start
         logger.debug(f"Found {len(results)} closeby nodes "
                      f"in {t_delta_search} sec and computed distances in {t_delta_dist} sec")
@@ -505,7 +505,7 @@ class SqliteMap(BaseMap):
             dist, pi, ti = self.distance_point_to_segment(loc, loc_a, loc_b)
             if dist < max_dist:
                 results.append((dist, key_a, loc_a, key_b, loc_b, pi, ti))
-        results.sort()
+        results.sort(key=lambda result: result[0])  # by distance only: labels are never compared
         t_delta_dist = time.time() - t_start
         logger.debug(f"Found {len(results)} closeby edges "
                      f"in {t_delta_search} sec and computed distances in {t_delta_dist} sec")
